@@ -393,7 +393,11 @@ class GeminiServerProtocol(asyncio.Protocol):
                     body=response.body,
                     url=request.normalized_url,
                 )
-        except Exception as e:
+        except (KeyboardInterrupt, SystemExit):
+            raise
+        except BaseException as e:
+            # Also exceptions that do not derive from Exception (a handler that awaited
+            # something cancelled ends in CancelledError): the client is still answered
             # Catch any handler errors and return 40 TEMPORARY FAILURE
             logger.error(
                 "handler_error",
@@ -437,7 +441,9 @@ class GeminiServerProtocol(asyncio.Protocol):
             # Send the response
             self._send_response(response)
 
-        except Exception as e:
+        except (KeyboardInterrupt, SystemExit):
+            raise
+        except BaseException as e:
             logger.error(
                 "async_handler_error",
                 client_ip=client_ip,
@@ -485,7 +491,9 @@ class GeminiServerProtocol(asyncio.Protocol):
             else:
                 self._route_request(request, client_ip)
 
-        except Exception as e:
+        except (KeyboardInterrupt, SystemExit):
+            raise
+        except BaseException as e:
             logger.error(
                 "middleware_error",
                 client_ip=client_ip,
@@ -675,7 +683,9 @@ class GeminiServerProtocol(asyncio.Protocol):
 
             self._send_response(response)
 
-        except Exception as e:
+        except (KeyboardInterrupt, SystemExit):
+            raise
+        except BaseException as e:
             logger.error(
                 "titan_upload_error",
                 client_ip=client_ip,
